@@ -79,6 +79,8 @@ func cmdReplay(args []string) {
 			Seed        uint64          `json:"verif_seed"`
 			BP          batchProject    `json:"batch_project"`
 			Violation   json.RawMessage `json:"violation"`
+			Mode        string          `json:"replay_mode"`
+			Tier        string          `json:"tier"`
 		}
 		if err := json.Unmarshal(doc.Case, &c); err != nil {
 			harnessFail("%v", err)
@@ -87,7 +89,14 @@ func cmdReplay(args []string) {
 		sameTree = rs.s.Fingerprint == c.Fingerprint
 		rs.addProjectsTagged([]*projgen.Project{c.BP.Project}, []string{c.BP.Tag}, 5)
 		rs.buildBatch()
-		out := rs.runBatch(c.Seed, "quick", rs.projects, c.Violation)
+		if c.Tier == "" {
+			c.Tier = "quick"
+		}
+		replayArg := c.Violation
+		if c.Mode == "full-project-history" {
+			replayArg = nil // the violation depends on the state earlier requests left in the router: re-run the project's whole seeded workload
+		}
+		out := rs.runBatch(c.Seed, c.Tier, rs.projects, replayArg)
 		for _, v := range out.Violations {
 			if v.Signature == doc.Signature {
 				reproduced, detail = true, v.Class+": "+v.Message
